@@ -8,6 +8,7 @@ import (
 	"io"
 	"net/http"
 	"sync"
+	"sync/atomic"
 	"time"
 
 	"github.com/thushan/olla/internal/adapter/translator"
@@ -501,6 +502,14 @@ func (a *Application) executeTranslatedStreamingRequest(
 		return fmt.Errorf("request cancelled while waiting for backend headers: %w", ctx.Err())
 	}
 
+	// The proxy gave up before any backend produced a response: report the failure instead of
+	// opening an (empty) event stream. preHeaderErr is written before headersReady is closed.
+	if streamRecorder.preHeaderErr != nil {
+		pipeReader.Close()
+		<-proxyErrChan
+		return fmt.Errorf("proxy request failed: %w", streamRecorder.preHeaderErr)
+	}
+
 	// handle backend errors before starting sse stream
 	if streamRecorder.status >= 400 {
 		a.handleStreamingBackendError(w, pipeReader, streamRecorder, proxyErrChan, pr, trans)
@@ -555,6 +564,9 @@ func (a *Application) startProxyGoroutine(
 		// If the proxy returned an error without ever calling Write or WriteHeader,
 		// headersReady is never closed and the main goroutine blocks forever.
 		// Ensure it is always signalled before closing the pipe.
+		if err != nil && !streamRecorder.started.Load() {
+			streamRecorder.preHeaderErr = err
+		}
 		streamRecorder.ensureHeadersReady()
 		pipeWriter.Close() // Signal end of stream
 		proxyErrChan <- err
@@ -845,10 +857,12 @@ func (r *responseRecorder) WriteHeader(statusCode int) {
 // captures headers while forwarding body to pipe (for streaming)
 type streamingResponseRecorder struct {
 	writer       io.Writer
+	preHeaderErr error // proxy failure before any response was produced
 	headers      http.Header
 	headersReady chan struct{}
 	closeOnce    sync.Once
 	status       int
+	started      atomic.Bool // Write or WriteHeader was called
 }
 
 func newStreamingResponseRecorder(w io.Writer) *streamingResponseRecorder {
@@ -871,12 +885,14 @@ func (r *streamingResponseRecorder) ensureHeadersReady() {
 }
 
 func (r *streamingResponseRecorder) Write(data []byte) (int, error) {
+	r.started.Store(true)
 	r.ensureHeadersReady()
 	return r.writer.Write(data)
 }
 
 func (r *streamingResponseRecorder) WriteHeader(statusCode int) {
 	r.status = statusCode // Capture status code to detect backend errors
+	r.started.Store(true)
 	r.ensureHeadersReady()
 	// Don't propagate the status write for streaming; just mark headers sent.
 }
